@@ -34,6 +34,9 @@ func init() {
 		p.Cfg.Listens = []ListenCfg{{Addr: "10.0.0.1", UDP: 5060, Backends: []string{"udp://10.2.0.1:5070"}}}
 		p.Cfg.Faults.MinLat = 100 * time.Microsecond
 		p.Cfg.Faults.MaxLat = 2 * time.Millisecond
+		if seed%2 == 1 {
+			p.Cfg.Knobs = map[string]int{"recvCostUs": 300} // a slow node: see step 7
+		}
 		return p
 	}, func(t *testing.T, p *Plan) *Result {
 		r := &Result{}
@@ -306,8 +309,40 @@ func simSelfTest(w *World) {
 		mu.Unlock()
 	})
 	w.K.Advance(200 * time.Millisecond)
-	if done != 7 {
-		bad("self-test goroutines finished: %d of 7", done)
+	// 7. a slow node (knob recvCostUs): a consumer that is busy 300 us per receive falls behind a producer that sends
+	// every 100 us, 
+	ch := make(chan int, 16)
+	var lastAt time.Duration
+	var maxQueued int
+	step("producer", func() {
+		for i := 0; i < 5; i++ {
+			simrt.Send(ch, i)
+			simrt.Sleep(100 * time.Microsecond)
+		}
+	})
+	step("consumer", func() {
+		t0 := time.Now()
+		for i := 0; i < 5; i++ {
+			if simrt.Recv(ch) != i {
+				bad("slow node: values out of order")
+			}
+			if n := len(ch); n > maxQueued {
+				maxQueued = n
+			}
+			lastAt = time.Since(t0)
+		}
+	})
+	w.K.Advance(5 * time.Millisecond)
+	if cost := w.P.Cfg.Knobs["recvCostUs"]; cost > 0 {
+		if lastAt < 5*300*time.Microsecond || maxQueued < 2 {
+			bad("slow node: the last of 5 receives at %v with at most %d queued (want >= 1.5ms, >= 2)", lastAt, maxQueued)
+		}
+		w.Stats["probe:slow-node-consumer-fell-behind"]++
+	} else if lastAt > 450*time.Microsecond || maxQueued > 1 {
+		bad("fast node: the last of 5 receives at %v with at most %d queued (want <= 400us, <= 1)", lastAt, maxQueued)
+	}
+	if done != 9 {
+		bad("self-test goroutines finished: %d of 9", done)
 	}
 	w.Stats["judged:SIMSELF"]++
 }
